@@ -118,7 +118,14 @@ fn run_sequence(seq: &[(Req, Fill, Restore)], r: &mut Report) {
             if let Ok(lr) = lr {
                 lr.write_metadata(Rich { version: "1".into(), checksum: "abc".into() }).unwrap();
                 let mut env = LayerEnv::new(); env.insert(Scope::All, ModificationBehavior::Override, "A", "1"); env.insert(Scope::Process("web".into()), ModificationBehavior::Append, "B", "2");
-                lr.write_env(env).unwrap(); lr.write_sboms(&[Sbom::from_bytes(SbomFormat::SpdxJson, "{}")]).unwrap();
+                lr.write_env(env).unwrap();
+                // LayerRef::write_sboms REPLACES the layer's SBOMs: afterwards exactly the given formats exist
+                let have = |l: &Path| -> Vec<bool> { ["cdx", "spdx", "syft"].iter().map(|f| l.join(format!("x.sbom.{f}.json")).exists()).collect() };
+                for (set, want) in [(vec![SbomFormat::CycloneDxJson, SbomFormat::SyftJson], vec![true, false, true]), (vec![], vec![false, false, false]), (vec![SbomFormat::SpdxJson], vec![false, true, false])] {
+                    let sb: Vec<Sbom> = set.iter().map(|f| Sbom::from_bytes(f.clone(), "{}")).collect();
+                    lr.write_sboms(&sb).unwrap();
+                    if have(&layers) != want { r.violation("write_sboms_exact", "after LayerRef::write_sboms exactly the given SBOM formats exist", format!("sequence {seq:?}, step {step}: write_sboms({set:?}) after earlier SBOMs"), format!("{want:?} (cdx, spdx, syft)"), format!("{:?}", have(&layers))); }
+                }
                 fs::write(lr.path().join("payload"), b"data").unwrap();
             }
         }
